@@ -242,10 +242,17 @@ C06_LossPerType(w1, e, w2) ==
         lb  == ub - SumFn([i \in G |-> Paid(w2.hist[i], "b")], G)
         lst == ust - SumFn([i \in G |-> Paid(w2.hist[i], "st")], G)
     IN (ub > 0 /\ ust > 0 /\ lb >= 0 /\ lst >= 0) => AbsCrossDiffLe(lb, ust, lst, ub, (2 * Cardinality(G) + 4) * (ub + ust))
+\* ... and it is the loss that is spread, nothing else: what the group's batches are promised in total is what arrived for
+\* them (unbonded value less the slashed coins, plus whatever else reached the hub since the last release), up to rounding
+C06_LossTotal(w1, e, w2) ==
+  LET G == NewlyReleased(w1, w2) IN
+  (G # {} /\ ~IsProbe(e) /\ w1.chainUnbonding = w1.hubPar.unbonding) =>
+    LET paid == SumFn([i \in G |-> Paid(w2.hist[i], "b") + Paid(w2.hist[i], "st")], G)
+    IN Abs(paid - (HubCoins(w1) - w1.hub.prevBal)) <= 4 * Cardinality(G) + 4
 \* the check inside every pricing operation (bond, re-bonded rewards, unbond, convert) recognises the slashing: afterwards
 \* the stored books are the recognised ones (the State query has nothing left to recompute)
 C06_PricingRecognises(e, w2, o2) == PricingStep(e) => (w2.hub.bondB = o2.rep.bondB /\ w2.hub.bondSt = o2.rep.bondSt)
-C06_Step(w1, e, w2, o1, o2) == /\ C06_CheckStores(e, w2, o1) /\ C06_LossProRata(w1, e, w2) /\ C06_LossPerType(w1, e, w2)
+C06_Step(w1, e, w2, o1, o2) == /\ C06_CheckStores(e, w2, o1) /\ C06_LossProRata(w1, e, w2) /\ C06_LossPerType(w1, e, w2) /\ C06_LossTotal(w1, e, w2)
                                /\ C06_PricingRecognises(e, w2, o2)
 
 -----------------------------------------------------------------------------
